@@ -2,12 +2,12 @@ SPECIFICATION Spec
 CONSTANTS
   N = 64
   Grans = {4, 8, 12, 16}
-  Bufs = {16, 24, 64}
+  Bufs = {0, 6, 14, 16, 24, 64}
   Addrs = {0, 4, 8, 12, 16, 32}
   Sizes = {0, 3, 4, 8, 12, 16, 20, 24, 32}
   MaxReqs = 2
   Grans2 = {4, 12, 16}
-  Bufs2 = {16, 24}
+  Bufs2 = {6, 16, 24}
   Addrs2 = {0, 48}
   Sizes2 = {8, 16}
 INVARIANT TypeOK
